@@ -386,3 +386,67 @@ pub fn exec(args: &[String]) -> Value {
     rec.out.flush().ok();
     json!({"summary": {"records": rec.records, "panics": rec.panics}})
 }
+
+
+/// record-fp <out.ndjson> <count>: the library iterator fp(a, t) with random table-driven
+/// transformers over all diagrams of 2 or 3 variables and a call counter.  The driver only issues
+/// calls whose sequence a, t(a), .. reaches an element that t maps to itself (otherwise fp is
+/// documented not to terminate).
+pub fn record_fp(args: &[String]) -> Value {
+    let count: usize = args[1].parse().expect("count");
+    let mut r = rng(83);
+    let out: Box<dyn Write> = Box::new(std::io::BufWriter::new(std::fs::File::create(&args[0]).expect("create")));
+    let mut rec = Rec::new(3, &mut r, out);
+    let all = rec.all_wf();
+    let n = all.len();
+    let mut longest = 0usize;
+    let mut done = 0usize;
+    while done < count {
+        // a random function on indices, biased towards short cycles-free chains
+        let table: Vec<usize> = (0..n).map(|i| if r.gen_bool(0.25) { i } else { r.gen_range(0..n) }).collect();
+        let a = r.gen_range(0..n);
+        // does the chain from a reach a fixed point?
+        let (mut x, mut steps, mut ok) = (a, 0usize, false);
+        let mut visited = vec![a];
+        while steps <= n {
+            let y = table[x];
+            if y == x {
+                ok = true;
+                break;
+            }
+            x = y;
+            visited.push(x);
+            steps += 1;
+        }
+        if !ok {
+            continue;
+        }
+        done += 1;
+        longest = longest.max(steps);
+        let calls = std::cell::Cell::new(0usize);
+        let env = &rec.env;
+        let all_ref = &all;
+        let table_ref = &table;
+        let start = Rc::clone(&all[a]);
+        let got = guarded(|| {
+            env.fp(start, |x| {
+                calls.set(calls.get() + 1);
+                let i = all_ref.iter().position(|c| *c == x).expect("harness: unknown diagram");
+                Rc::clone(&all_ref[table_ref[i]])
+            })
+        });
+        let tj: Vec<Value> = visited.iter().map(|i| json!([rec.j(&all[*i]), rec.j(&all[table[*i]])])).collect();
+        let call = json!({"k": "fp", "a": rec.j(&all[a]), "table": tj});
+        match got {
+            Ok(res) => {
+                let mut c = call;
+                c["res"] = rec.j(&res);
+                c["calls"] = json!(calls.get());
+                rec.emit(c)
+            }
+            Err(m) => rec.emit_panic(call, m),
+        }
+    }
+    rec.out.flush().ok();
+    json!({"summary": {"records": rec.records, "panics": rec.panics, "longest_chain": longest, "nv": 3}})
+}
